@@ -12,13 +12,6 @@ import (
 
 // EncodeJSONFile 编码 JSON 文件
 func EncodeJSONFile(path string, obj interface{}) error {
-	f, err := os.OpenFile(path, os.O_CREATE|os.O_TRUNC|os.O_WRONLY, os.ModePerm)
-	if err != nil {
-		return err
-	}
-
-	defer f.Close()
-
 	var formatted bytes.Buffer
 	body, err := json.Marshal(obj)
 	if err != nil {
@@ -29,12 +22,25 @@ func EncodeJSONFile(path string, obj interface{}) error {
 		return err
 	}
 
-	if _, err := f.Write(formatted.Bytes()); err != nil {
-		return err
-	}
-	if err := f.Sync(); err != nil {
+	// 先把完整内容写入同目录下的临时文件并同步到磁盘，再原子地替换目标文件。
+	// 直接截断并重写目标文件时，进程在写入过程中崩溃会留下空的或不完整的文件，
+	// 重启后丢失全部用户/路由(或回退到默认管理员)。
+	tmp := path + ".tmp"
+	f, err := os.OpenFile(tmp, os.O_CREATE|os.O_TRUNC|os.O_WRONLY, os.ModePerm)
+	if err != nil {
 		return err
 	}
 
-	return nil
+	if _, err = f.Write(formatted.Bytes()); err == nil {
+		err = f.Sync()
+	}
+	if cerr := f.Close(); err == nil {
+		err = cerr
+	}
+	if err != nil {
+		os.Remove(tmp)
+		return err
+	}
+
+	return os.Rename(tmp, path)
 }
